@@ -430,7 +430,19 @@ theorem rejects_require_static_type_not_static (ρ : List Sem) (d : Decl)
 
 /-- A traced field (one that survives the `require_static` filter) whose type is not `Collect`:
 `FieldTy: Collect<'gc>` required by `cc.trace(bi)` / `<FieldTy as Collect>::NEEDS_TRACE` fails
-(E0277). -/
+(E0277).
+
+Quantified over EVERY type shape of the model, i.e. every `Ty` constructor (coverage of the probe
+corpus: `probe_corpus_covers_every_constructor`).  How the syntactic forms a field type can have
+(`syn::Type`) map to `Ty`: `Path` → `leaf` / `gc` / `weak` / `opaque` / `param` / `con` (provided
+container applied to arguments) / `adt`; `Reference` (`&'lt T`, `&'lt mut T`) → `ref` (`Collect`
+iff `'lt = 'static` and `T: 'static`; `reference_is_collect_iff`, `rejects_reference_field`);
+`Tuple` → `con tuple`; `Array` → `con (array n)`; `Slice` (behind `Box`/`Rc`/`&`) → `con vec`;
+`Paren` / `Group` → the inner type; `Ptr` (`*const T`, `*mut T`), `BareFn`, `TraitObject` (other
+than `dyn DynCollect`), `Never` → `opaque` (no provided `Collect` impl).  `ImplTrait`, `Infer`,
+`Macro`, `Verbatim` cannot be field types (rustc rejects them before the derive matters).  The
+derive itself never inspects the form (`needs_trace_expr`, `trace_body` and `filter` look only at
+attributes), which is what `macroCheck` / `traceR` model. -/
 theorem rejects_field_not_collect (ρ : List Sem) (d : Decl)
     (hmode : ∀ o, parseTypeAttrs d.attrs = .ok o → o.mode ≠ some .requireStatic)
     (f : Field) (hf : f ∈ d.fields) (hk : f.traced = true)
@@ -452,6 +464,36 @@ theorem rejects_field_not_collect (ρ : List Sem) (d : Decl)
   refine ⟨f.resolve ρ, ?_, by simp⟩
   rw [List.mem_filter, Decl.resolve_fields]
   exact ⟨List.mem_map.mpr ⟨f, hf, rfl⟩, by simpa using hk⟩
+
+/-- A reference type is `Collect` exactly when it is `&'static T` with `T: 'static` (the referent
+need not be `Collect`); it never needs tracing. -/
+theorem reference_is_collect_iff (ρ : List Sem) (st : Bool) (t : Ty) :
+    ((Ty.ref st t).sem ρ).collect = (st && (t.sem ρ).static) ∧
+    ((Ty.ref st t).sem ρ).needsTrace = false := by
+  simp [Ty.sem, Sem.ref]
+
+/-- A traced field of reference type whose lifetime is not `'static` (`view: &'gc T` obtained from
+`Gc::as_ref`, `&'a T`, `&'gc mut T`) or whose referent is not `'static` is refused in the tracing
+modes, in every variant and position. -/
+theorem rejects_reference_field (ρ : List Sem) (d : Decl)
+    (hmode : ∀ o, parseTypeAttrs d.attrs = .ok o → o.mode ≠ some .requireStatic)
+    (f : Field) (hf : f ∈ d.fields) (hk : f.traced = true) (st : Bool) (t : Ty)
+    (hty : f.ty = .ref st t) (hns : (st && (t.sem ρ).static) = false) :
+    Rejected (deriveCheckIn ρ d) := by
+  apply rejects_field_not_collect ρ d hmode f hf hk
+  rw [hty, (reference_is_collect_iff ρ st t).1, hns]
+
+/-- Lower bound on the probe corpus: the not-`Collect` field types of the rejection probes and the
+`Collect` control twins (mirrored in `Examples.probeNotCollectFieldTypes` /
+`probeCollectFieldTypes`; lib/eng_collect.py re-checks the same census on the descriptions it
+actually sends) together exhibit EVERY constructor of `Ty` as the outermost constructor of a field type,
+every not-`Collect` entry is indeed not `Collect` in the model and every control is. -/
+theorem probe_corpus_covers_every_constructor :
+    (List.range Ty.nctors).all (fun c =>
+      (Examples.probeNotCollectFieldTypes ++ Examples.probeCollectFieldTypes).any (fun t => t.ctor == c)) = true ∧
+    Examples.probeNotCollectFieldTypes.all (fun t => !(t.sem [Sem.abstractParam false false]).collect) = true ∧
+    Examples.probeCollectFieldTypes.all (fun t => (t.sem [Sem.abstractParam true false]).collect) = true := by
+  decide
 
 /-- Conversely, an accepted derive in a tracing mode has no such field: every field is either
 traced with a `Collect` type or filtered with a `'static` type — nothing is silently skipped. -/
@@ -523,6 +565,15 @@ example : HasShape (.adt 0 [.adt 0 [.opaque [(1, false)]]]) holder ∧
     heldInTracedFields holder (.adt 0 [.adt 0 [.opaque [(1, false)]]]) = [(1, false)] := by decide
 -- on well-typed values the two right-hand sides coincide
 example : HasShape outerVal outer ∧ heldInTracedFields outer outerVal = ptrsOf outerVal := by decide
+
+-- the borrowed view: `#[collect(no_drop)] struct View<'gc> { serial: u32, view: &'gc Tracked }` is refused,
+-- `&'static Tracked` is accepted, never traced, NEEDS_TRACE false
+example : deriveCheck (strct [[.mode .noDrop]] 1 0 false .named [fld .leaf, fld (.ref false .leaf)])
+    = .error .notCollect := by decide
+example : deriveCheck (strct [[.mode .noDrop]] 0 0 false .named [fld .leaf, fld (.ref true (.opaque true))])
+    = .ok () ∧
+    needsTraceDerived (strct [[.mode .noDrop]] 0 0 false .named [fld .leaf, fld (.ref true (.opaque true))])
+    = false := by decide
 
 -- tests/ui/bad_collect_bound.rs
 example : deriveCheck (strct [[.mode .noDrop]] 0 0 false .named [fld (.opaque true)])
